@@ -15,6 +15,11 @@ import Anko.Model.Eval
 import Anko.Proofs.EvalProvAll
 import Anko.Gen.ProvFlow
 import Anko.Props.ProvFlowTable
+import Anko.Props.Tie.ProvFlow
+import Anko.Props.Tie.ContFlow
+import Anko.Props.Tie.ExprFlow
+import Anko.Props.Tie.ToXFlow
+import Anko.Props.Tie.CallFlow
 
 set_option linter.unusedSectionVars false
 
@@ -130,6 +135,21 @@ Every leaf statement of the unary operators, dereference, address-of, unalias, c
 pointer is looked through and where an addressable value is copied - is the one written down in Props/ProvFlowTable next to the model's flag handling
 (Prov.wrap / elemRV). Any edit of these functions - also a harmless one - breaks this obligation by name; the check then
 searches model and implementation for a failing input (DESIGN.md 13.3). -/
-theorem values_are_opened_where_modelled : Gen.ProvFlow.leaves = Tables.provFlow := by decide +kernel
+theorem values_are_opened_where_modelled : Gen.ProvFlow.leaves = Tables.provFlow := Tie.provFlow
+
+/-! ### Shared source ties
+
+The code this property is anchored in is also written down, leaf statement by leaf statement, by the tables below (each decided once in
+Props/Tie, `decide +kernel`, against the table regenerated from /repo on this run). A change of that code breaks the tie by name here too, and the check of
+this property then searches for a failing input - so a change that breaks this property through code whose primary table belongs to another
+property is not overlooked. -/
+/-- the container paths (index, slice, len, member, make, assignment targets, delete) -/
+theorem source_tie_ContFlow : Gen.ContFlow.leaves = Tables.contFlow := Tie.contFlow
+/-- the expression dispatcher and multi-operand forms (vmExpr.go) -/
+theorem source_tie_ExprFlow : Gen.ExprFlow.leaves = Tables.exprFlow := Tie.exprFlow
+/-- the conversions of the numeric tower (vmToX.go) and kind helpers -/
+theorem source_tie_ToXFlow : Gen.ToXFlow.leaves = Tables.toXFlow := Tie.toXFlow
+/-- the call machinery (vmExprFunction.go) -/
+theorem source_tie_CallFlow : Gen.CallFlow.leaves = Tables.callFlow := Tie.callFlow
 
 end Anko.C20
